@@ -304,11 +304,20 @@ func Check(c Case) *kit.Violation {
 		}
 	}
 
+	type keptAnswer struct {
+		path string
+		live denco.Params // the slice Lookup returned: the caller's from then on
+		snap denco.Params
+	}
+	var kept []keptAnswer
 	for _, bp := range c.Paths {
 		path := string(bp)
 		got, v := lookup(r, path)
 		if v != nil {
 			return kit.Failf("pats=%q path=%q: %s", keys(c.Pats), path, v.Msg)
+		}
+		if got.Found && len(got.Params) > 0 {
+			kept = append(kept, keptAnswer{path, got.Params, append(denco.Params(nil), got.Params...)})
 		}
 		if v := judge(c.Pats, path, got); v != nil {
 			return v
@@ -338,6 +347,12 @@ func Check(c Case) *kit.Violation {
 			if !sameAnswer(got, mg) {
 				return kit.Failf("MUX-DIFFERS pats=%q path=%q: Router -> %v, Mux handler -> %v", keys(c.Pats), path, got, mg)
 			}
+		}
+	}
+	// parameters a lookup handed out belong to the caller: later lookups on the same router must not change them
+	for _, k := range kept {
+		if !reflect.DeepEqual(k.live, k.snap) {
+			return kit.Failf("PARAMS-OVERWRITTEN pats=%q: the parameters returned for path %q were %v; after later lookups on the same router the same slice reads %v", keys(c.Pats), k.path, k.snap, k.live)
 		}
 	}
 	return nil
@@ -473,6 +488,12 @@ func genSet(t *rapid.T, want int, vocab []string, maxSeg int) []Pat {
 	var pats []Pat
 	for i := 0; i < want; i++ {
 		p := genPat(t, vocab, maxSeg)
+		// a parameter-free pattern may carry ':' or '*' in the middle of a segment ("/books:search", "/a*b"): Build
+		// accepts it as a static route (only "/:", "/*" and "=:" make a placeholder)
+		if p.static() && rapid.IntRange(0, 3).Draw(t, "midreserved") == 0 {
+			j := rapid.IntRange(0, len(p)-1).Draw(t, "midseg")
+			p[j].Lit = p[j].Lit + rapid.SampledFrom([]string{":", "*", ":x", "*x", ":search"}).Draw(t, "midch")
+		}
 		if seen[p.norm()] {
 			continue
 		}
